@@ -10,6 +10,24 @@ def poly_trace(ck, which):
     if d["rc"] != 0:
         raise vlib.InfraError("driver failed rc=%s %s" % (d["rc"], d["err"][-1500:]))
     ck.ev.notes.append("driver: " + d["err"].strip()[-200:])
+    if which == "C07":
+        # the legacy fill is judged in a suite of its own, so that a finding about one algorithm can never hide a violation of the
+        # other on the same polygon (it had one: cells lost on needles across the antimeridian, fixed in /repo)
+        tl = t + ".fill"
+        with open(tl, "w") as f:
+            for ln in open(t):
+                if '"e":"polyfill"' in ln:
+                    f.write(ln)
+        ck.trace("polygons-legacy", "Trace_Poly", "Trace.cfg", tl, nchunks=16 if ck.quick else 48, balance=True, env={"WHICH": "C07L"},
+                 timeout=3400, max_rejections=100000,
+                 what="polygonToCells (legacy edge-trace + flood fill) on the polygons described under 'polygons'")
+        tn = os.path.join(ck.tdir, "needles.ndjson")
+        d = vlib.run_driver(drv, ["needles", ck.tier, ck.seed, tn], timeout=3000)
+        if d["rc"] != 0:
+            raise vlib.InfraError("driver failed rc=%s %s" % (d["rc"], d["err"][-1500:]))
+        ck.trace("needles", "Trace_Poly", "Trace.cfg", tn, nchunks=16 if ck.quick else 48, balance=True, env={"WHICH": "C07"}, timeout=3400,
+                 what="needle-thin polygons only (aspect 1:20..1:500, 4-8 vertices, all placements incl. the antimeridian), both centre fills")
+        which = "C07E"
     ck.trace("polygons", "Trace_Poly", "Trace.cfg", t, nchunks=16 if ck.quick else 48, balance=True, env={"WHICH": which}, timeout=3400,
              what="generated well-formed polygons x resolutions 0..15: convex, star-shaped concave, needles (aspect 1:20..1:500), smaller "
                   "than a cell, up to ~1500 (thorough ~5000) cells, 1-3 holes, a hole smaller than a cell on a cell centre, holes "
